@@ -39,6 +39,7 @@ def histories(draw):
         else:
             ops.append({"op": k})
     cfg["ops"] = ops
+    cfg["max_attempts"] = draw(st.sampled_from([None, None, 1, 2, 3]))   # ensemble / HMC public attribute: failed updates become frequent
     return cfg
 
 
@@ -120,6 +121,8 @@ def body_history(case, ctx):
     cfg = case
     cls = cfg["cls"]
     ch, tgt, info = S.build(cfg, record=False)
+    if cfg.get("max_attempts") and cls == "ensemble":
+        ch.max_attempts = cfg["max_attempts"]
     snap = snapshot_inputs(info)
     check_inputs(info, snap, cls, "by the constructor")
     check_chain(ch, tgt, cfg, "after construction", ctx)
@@ -194,6 +197,8 @@ def body_history(case, ctx):
     ctx.event("cls=" + cls)
     ctx.event("T!=1" if cfg["T"] != 1.0 else "T=1")
     ctx.event("with-clone" if clone is not None else "no-clone")
+    if cls == "ensemble" and getattr(ch, "failed_updates", None) and sum(ch.failed_updates) > 0:
+        ctx.event("ensemble-failed-walker-updates")
     if clone is not None and stepped_main and stepped_clone:
         ctx.event("both-clones-stepped")
 
